@@ -46,6 +46,9 @@ structure Pat where
   junk : Nat := 0
   /-- the first triple of the chunk is `<base> rdfa:usesVocabulary <v>`: put `vocab="v"` on a wrapper around the rest -/
   vocab : Bool := false
+  /-- `id` attributes (irrelevant to RDFa) on the wrappers: bit 0 the neutral wrappers, bit 1 the @prefix / @lang /
+      @vocab wrappers -/
+  ids : Nat := 0
   deriving Repr, DecidableEq, Inhabited
 
 def Pat.takeOf (p : Pat) : Nat := p.take
@@ -238,18 +241,24 @@ def wrapN : Nat → Nat → Tree → Tree
   | 0, _, t => t
   | k + 1, sel, t => .elem (ctag (sel + k)) {} [wrapN k sel t]
 
+/-- as `wrapN`, each wrapper with an `id` -/
+def wrapNId : Nat → Nat → Tree → Tree
+  | 0, _, t => t
+  | k + 1, sel, t => .elem (ctag (sel + k)) { id := some (asc "rw" ++ (Nat.toDigits 10 k).map Char.toNat) } [wrapNId k sel t]
+
 /-- the candidate block for a chunk of triples, to stand in context `C` -/
 def Pat.build (lbl : β → Str) (C : Ctx) (P : Pat) (chunk : List (Triple β)) : Tree :=
   let inh := match P.wlang with | some l => (if l = [] then none else some l) | none => C.lang
   let voc : Option Str := match P.vocab, chunk with
     | true, t0 :: _ => (match t0.o with | .iri v => (if t0.p == usesVocabulary then some v else none) | _ => none)
     | _, _ => none
+  let wid (name : String) : Option Str := if P.ids / 2 % 2 == 1 then some (asc name) else none
   let blk := match voc with
-    | some v => .elem (ctag (nth P.tags 7)) { vocab := some v } (withNoise P.junk 1 [core lbl inh P (chunk.drop 1)])
+    | some v => .elem (ctag (nth P.tags 7)) { vocab := some v, id := wid "vw" } (withNoise P.junk 1 [core lbl inh P (chunk.drop 1)])
     | none => core lbl inh P chunk
-  let blk := match P.wlang with | some l => .elem (ctag (nth P.tags 4)) { lang := some l } (withNoise P.junk 2 [blk]) | none => blk
-  let blk := match P.pfx with | some p => .elem (ctag (nth P.tags 5)) { pfx := some p } (withNoise P.junk 3 [blk]) | none => blk
-  wrapN (P.wrap % 4) (nth P.tags 6) blk
+  let blk := match P.wlang with | some l => .elem (ctag (nth P.tags 4)) { lang := some l, id := wid "lw" } (withNoise P.junk 2 [blk]) | none => blk
+  let blk := match P.pfx with | some p => .elem (ctag (nth P.tags 5)) { pfx := some p, id := wid "pw" } (withNoise P.junk 3 [blk]) | none => blk
+  if P.ids % 2 == 1 then wrapNId (P.wrap % 4) (nth P.tags 6) blk else wrapN (P.wrap % 4) (nth P.tags 6) blk
 
 end
 end RdfModel.Spec.Rdfa
